@@ -158,6 +158,25 @@ theorem create_cell_in_use_refused (n : Node) (src : Nat) (c : Cell B) (ch : Cho
       Bool.or_false, Bool.false_eq_true, Bool.not_false, if_false]
     simpa using create_in_use_refused A n src c.cid ident pk dh h
 
+/-- join_circuit (whenever it runs: at once, or when an overridden should_join_circuit hook returns) only adds or
+    re-writes the entry of the id it was asked for: every other exit entry, every relay and circuit stays -/
+theorem join_touches_only_its_id (n : Node) (src cid ident pk dh : Nat) (k : Nat) (hk : k ≠ cid)
+    (hc : get n.circuits cid = none) :
+    let r := joinNow A n src cid ident pk dh
+    get r.1.exits k = get n.exits k ∧ r.1.relays = n.relays ∧ r.1.circuits = n.circuits := by
+  unfold joinNow joinCircuit
+  split
+  · exact ⟨rfl, rfl, rfl⟩
+  · split
+    · exact ⟨rfl, rfl, rfl⟩
+    · dsimp only
+      split
+      · split
+        · exact ⟨rfl, rfl, rfl⟩
+        · exact ⟨get_set_other _ _ _ _ hk, rfl, rfl⟩
+      · simp only [sendMsg, sendCell, mkCell, hc]
+        split <;> exact ⟨get_set_other _ _ _ _ hk, rfl, rfl⟩
+
 /-- and an accepted CREATE (fresh id) only adds: every existing entry is still there, unchanged -/
 theorem create_fresh_only_adds (n : Node) (src cid ident pk dh : Nat) (k : Nat) (hk : k ≠ cid) :
     let r := onCreate A n src cid ident pk dh
@@ -165,16 +184,67 @@ theorem create_fresh_only_adds (n : Node) (src cid ident pk dh : Nat) (k : Nat) 
   unfold onCreate
   split
   · exact ⟨rfl, rfl, rfl⟩
-  · split
+  · rename_i hin
+    have hc : get n.circuits cid = none := by
+      rw [gen_createRefused] at hin
+      cases hg : get n.circuits cid with
+      | none => rfl
+      | some x => exact absurd (Or.inr (Or.inl (by simp [has, hg]))) hin
+    split
     · exact ⟨rfl, rfl, rfl⟩
-    · rename_i hin _
-      have hc : get n.circuits cid = none := by
-        rw [gen_createRefused] at hin
-        cases hg : get n.circuits cid with
-        | none => rfl
-        | some x => exact absurd (Or.inr (Or.inl (by simp [has, hg]))) hin
-      simp only [sendMsg, sendCell, mkCell, hc]
-      split <;> exact ⟨get_set_other _ _ _ _ hk, rfl, rfl⟩
+    · exact join_touches_only_its_id A n src cid ident pk dh k hk hc
+
+/-- an id that was taken while should_join_circuit was being awaited (by a second CREATE that passed the guards
+    concurrently, by a relay pair completed meanwhile, by an own circuit) is refused when the hook returns: on_create
+    checks the id AGAIN after the await (repaired code 82c67e3; generated guard `createRecheckRefused`) — nothing is
+    replaced, no CREATED is sent -/
+theorem join_after_id_taken_is_refused (n : Node) (src cid ident pk dh : Nat)
+    (h : n.inUse cid = true ∨ n.created.contains cid = true) :
+    joinNow A n src cid ident pk dh = (n, []) := by
+  unfold joinNow
+  have hg : Gen.createRecheckRefused (n.created.contains cid) (has n.circuits cid) (has n.relays cid) (has n.exits cid)
+      = true := by
+    rw [gen_createRecheckRefused]
+    cases h with
+    | inl h =>
+      simp only [Node.inUse, Bool.or_eq_true] at h
+      rcases h with (h | h) | h
+      · exact Or.inr (Or.inl h)
+      · exact Or.inr (Or.inr (Or.inl h))
+      · exact Or.inr (Or.inr (Or.inr h))
+    | inr h => exact Or.inl h
+  rw [if_pos hg]
+
+/-- independently of that re-check, join_circuit itself changes nothing for an id that already has a
+    CreatedRequestCache: the cache is constructed (and refuses) BEFORE exit_sockets[id] is written — the GENERATED fact
+    `gen_joinCacheFirst`; with the two statements swapped the first joiner's entry would be overwritten -/
+theorem join_circuit_refuses_a_second_cache (n : Node) (src cid ident pk dh : Nat)
+    (h : n.created.contains cid = true) :
+    joinCircuit A n src cid ident pk dh = (n, []) := by
+  unfold joinCircuit
+  simp only [h, if_true, gen_joinCacheFirst]
+
+/-- the join that runs first leaves exactly that mark: after a join that did anything, the id is in the created-cache,
+    so both statements above apply to every later join of the same id -/
+theorem join_marks_its_id (n : Node) (src cid ident pk dh : Nat)
+    (hch : (joinNow A n src cid ident pk dh).1 ≠ n) :
+    (joinNow A n src cid ident pk dh).1.created.contains cid = true := by
+  unfold joinNow at hch ⊢
+  split
+  · rename_i hj; rw [if_pos hj] at hch; exact absurd rfl hch
+  · rename_i hj
+    rw [if_neg hj] at hch
+    split
+    · rename_i hj2; rw [if_pos hj2] at hch; exact absurd rfl hch
+    · rename_i hj2
+      rw [if_neg hj2] at hch
+      unfold joinCircuit at hch ⊢
+      by_cases hcr : n.created.contains cid = true
+      · simp only [hcr, if_true, gen_joinCacheFirst] at hch
+        exact absurd rfl hch
+      · simp only [hcr, Bool.false_eq_true, if_false, sendMsg]
+        rw [(sendCell_created A _ _ _ _)]
+        simp
 
 /-! ## a destroy removes an entry only if it is signed by the adjacent peer of that entry -/
 
@@ -720,6 +790,11 @@ theorem queue_own_step (n : Node) (e : Ev B) (hq : QueueOwn n) : QueueOwn (step 
     split
     · exact qo_del cid rfl hq
     · exact hq
+  | joinRelease k =>
+    simp only [step, joinRelease]
+    split
+    · exact hq
+    · exact joinNow_qo A _ _ _ _ _ _ (qo_same rfl hq)
 
 /-- … hence it holds after every history (unbounded, any interleaving of any number of circuits) from a node
     whose queues are empty, in particular from the initial node -/
@@ -973,6 +1048,17 @@ theorem intro_point_is_first_come (n : Node) (intros : List (Nat × Nat × Nat))
 example : onEstablishIntro exX [(77, 700, 5)] 700 77 6 = [(77, 700, 5)] := by decide
 example : onEstablishIntro exQ [(77, 700, 5)] 701 77 6 = [(77, 700, 5)] := by decide
 example : onEstablishIntro exQ [(77, 700, 5)] 701 78 6 = [(77, 700, 5), (78, 701, 6)] := by decide
+
+/-- removing an exit socket leaves no introduction point and no rendezvous cookie that still names its id (so the next
+    circuit that gets the id inherits nothing), and the registrations of every other socket are kept -/
+theorem removed_socket_leaves_no_registration (intros : List (Nat × Nat × Nat)) (cookies : List (Nat × Nat)) (cid : Nat) :
+    (∀ r ∈ dropIntros intros cid, r.2.1 ≠ cid) ∧ (∀ r ∈ dropCookies cookies cid, r.2 ≠ cid) ∧
+    (∀ r ∈ intros, r.2.1 ≠ cid → r ∈ dropIntros intros cid) ∧ (∀ r ∈ cookies, r.2 ≠ cid → r ∈ dropCookies cookies cid) := by
+  refine ⟨?_, ?_, ?_, ?_⟩ <;> intro r hr
+  · simp [dropIntros] at hr; exact hr.2
+  · simp [dropCookies] at hr; exact hr.2
+  · intro h; simp [dropIntros, hr, h]
+  · intro h; simp [dropCookies, hr, h]
 
 /-! ## the remaining generated guards, tied to the model's functions -/
 
